@@ -733,7 +733,6 @@ func (s *State) applyFunction(name string, fn object.Object, args []object.Objec
 	before := s.env.GetMisses()
 	res := s.Eval(newBody) // Need to have the return value unwrapped. Fixes bug #46, also need to count recursion.
 	after := s.env.GetMisses()
-	cantCache := s.env.CantCache()
 	// restore the previous env/state.
 	s.env = curState
 	s.Out = oldOut
@@ -747,10 +746,9 @@ func (s *State) applyFunction(name string, fn object.Object, args []object.Objec
 	}
 	if after != before {
 		log.Debugf("Cache miss for %s %v, %d get misses", function.CacheKey, args, after-before)
-		// Propagate the can't cache
-		if cantCache {
-			s.env.TriggerNoCache()
-		}
+		// Propagate the can't cache: the caller's result depends on whatever made this call uncacheable
+		// (random/IO extension, or reading/writing outer variables).
+		s.env.TriggerNoCache()
 		return res
 	}
 	// Don't cache errors, as it could be due to binding for instance.
